@@ -194,7 +194,9 @@ _m("C20",
    "stub-unreachable, derive-generated, and the assumption classes well-formed-integrity (named in the property), "
    "clock-after-epoch and counter-overflow. A site with no applicable rule is reported. Hangs: the one class visible in the "
    "shape of the code is decided — a loop that goes round again only through the error arm of a fallible call inside it "
-   "(retry-until-success) must be bounded by a counter; loops that also go round on success (read, line and poll loops) are "
+   "(retry-until-success) must be bounded by a counter; a loop around a read must test the amount just read against 0 (a read at "
+   "the end of a file returns Ok(0) for ever: a loop that is left only when a byte counter reaches a declared size spins on a "
+   "shorter source); other loops that also go round on success (line and poll loops) are "
    "data-driven and not decided. Two contract clauses whose violation panics inside callers / the allocator: a write / poll_write "
    "returns a count that is the Ok payload of an inner write of the caller's own buffer or has been compared with buf.len(); no "
    "allocation is sized with a number taken from an index record.",
@@ -233,7 +235,10 @@ _m("C05",
    "paths, labelled by the switches on `entry.key == key`, on the record's integrity and on its parse) equals the oracle: key "
    "differs → keep; key equal ∧ tombstone → clear; key equal ∧ parses → replace by *this* record (every Metadata field from the "
    "same-named record field); key equal ∧ unparsable → keep. (a2) Every successful keyed commit appends its record (no success return on the key-is-Some edge without "
-   "the insert call). (b0) The readers the lookups fold over take every valid record in file order (C06 re-checked). (c) 'Absent after removal': the removal clauses of C09 are re-checked — key removals "
+   "the insert call). (a3) A commit that fails has indexed nothing: after the insertion call no failure return is reachable except the one "
+   "handing back the insertion's own error (a check placed after the append would reject the write and leave its record as the most recent one). "
+   "The lookup may equally be written as filter(key) → filter_map(record state) → last() → flatten(), or as a scan from the newest "
+   "record that returns at the first deciding one; both are judged against the same oracle table. (b0) The readers the lookups fold over take every valid record in file order (C06 re-checked). (c) 'Absent after removal': the removal clauses of C09 are re-checked — key removals "
    "append the tombstone, a full removal removes the bucket on every success path, clear removes every child. Hence the last matching valid record wins and a tombstone hides "
    "earlier ones. A structurally different algorithm is reported as UNRECOGNISED-IDIOM (stated residual risk).",
    "The history → result mapping itself for concrete histories; foreign records placed in a bucket; interleaving of sync and async "
@@ -300,7 +305,7 @@ _m("C17",
    "bytes, unchanged)); content path = cache / ('content-v' ++ '2') / <algorithm Display> / x[0..2] / x[2..4] / x[4..] with "
    "(algorithm, x) = sri.to_hex(); record = \"\\n\" ++ hex(SHA-256(json)) ++ \"\\t\" ++ json in every insert (sync and async "
    "agree); JSON fields key, integrity, time, size, metadata, raw_metadata in that order with integrity: Option<String> (null = "
-   "removal); every reader splits fields on TAB and validates SHA-256-hex(fields[1]) == fields[0], and (the reader clauses of C06, re-checked here) takes "
+   "removal), each handed to serde as the field itself with its own type (no `with` / `serialize_with` re-encoding); every reader splits fields on TAB and validates SHA-256-hex(fields[1]) == fields[0], and (the reader clauses of C06, re-checked here) takes "
    "every line of the bucket file, skipping exactly the records the format declares invalid; lookups and the "
    "listing interpret the log as the format says (last valid record per key in file order wins, null integrity removes: C05 b and "
    "C10 b-d re-checked). Path construction is "
@@ -323,7 +328,8 @@ _m("C02",
    "then a full copy_from_slice(buf), both dominating the spawn, no other mutation). (c) The keyed writers' byte counters do "
    "`counter += amount reported by the inner writer` and return that amount, passing the caller's buffer unchanged, and no other "
    "method of their Write / AsyncWrite impl (write_vectored, poll_write_vectored, write_all ...) hands data to the inner writer "
-   "past the counter. (d) The temp file is persisted — with the replacing rename, not persist_noclobber — to "
+   "past the counter. (d) The temp file is persisted — with the replacing rename, not persist_noclobber, and on every path that reports "
+   "success (no 'a file is already there' short cut round the rename: that file may be a damaged one) — to "
    "content_path(cache, builder.result()), close returns that digest, and the only non-declared integrity "
    "ever indexed is Some(publication result). (e) One-shot writers write exactly their data parameter with one write_all and "
    "declare data.len(). (f) The pre-allocation is reached only when a dominating comparison proves the declared size ≥ 1. "
